@@ -40,7 +40,7 @@ META = dict(
     need=["rg_geometry", "klength_tables", "unique_klengths", "lm_layout", "sphere_volumes",
           "ps_partition", "ps_volumes", "ps_klengths", "ps_cache_sequences", "dof_volumes",
           "identity_is", "pickle_roundtrips", "unequal_pairs", "eq_hash_pairs", "cross_process_pickles"],
-    quick=dict(cases=1600, workers=4, budget_s=60),
+    quick=dict(cases=1600, workers=10, budget_s=60),
     thorough=dict(cases=40000, workers=16, budget_s=600),
     design_ref="DESIGN.md §5 C08",
     level_text=("exploration of generated domain descriptions against closed forms; the small LM/GL/HP "
